@@ -322,6 +322,58 @@ func c11Run(c c11Case) (*eng.Fail, bool) {
 			}
 		}
 	}
+	// way 4: both operands are loads of ONE register (at the operand widths of the case; the
+	// register holds a and garbage above): aliased operands, equal when the widths are equal
+	if g.arity == 2 {
+		wide := wa
+		if wb > wide {
+			wide = wb
+		}
+		content := new(big.Int).Add(ir.Adjust(a, wide), new(big.Int).Lsh(big.NewInt(0x5b), uint(wide)*8))
+		if wide > wa { // bytes of the register above the first operand's width are not all zero
+			content.Or(content, new(big.Int).Lsh(big.NewInt(0xc3), uint(wide-1)*8))
+		}
+		a4, b4 := ir.Adjust(content, wa), ir.Adjust(content, wb)
+		if exp4, ok4 := g.oracle(c, a4, b4, ir.ConstVal(tc), ir.ConstVal(fc)); ok4 {
+			env4 := &ir.Env{Reg: func(k expr.Key) *big.Int {
+				switch k {
+				case "a":
+					return content
+				case "t":
+					return tv
+				}
+				return fv
+			}}
+			var e4 expr.Expr
+			p, stack := eng.Catch(func() {
+				e4 = g.build(c, expr.NewRegLoad("a", wa), expr.NewRegLoad("a", wb), expr.NewRegLoad("t", w), expr.NewRegLoad("f", w))
+			})
+			if p != nil {
+				return &eng.Fail{Sig: c.G + " panic(one register) " + eng.PanicSite(stack), What: desc + " with both operands loads of one register panics: " + fmt.Sprint(p), Case: c}, true
+			}
+			got := ir.Eval(e4, env4)
+			ok := got.Cmp(ir.Adjust(exp4, outW)) == 0
+			if g.truthy {
+				ok = (got.Sign() != 0) == (exp4.Sign() != 0)
+			}
+			if !ok || e4.Width() != outW {
+				return &eng.Fail{Sig: c.G + " value(one register as both operands)", What: fmt.Sprintf("%s(r:w%d, r:w%d, w=%d) with r=%x evaluates to %x (w%d), documented function of (%x, %x) gives %x", c.G, wa, wb, w, content, got, e4.Width(), a4, b4, exp4), Case: c,
+					Expected: exp4.Text(16), Observed: got.Text(16)}, true
+			}
+			var h4 expr.Expr
+			if p, stack := eng.Catch(func() { h4 = exprtransform.ConstFold(e4) }); p != nil {
+				return &eng.Fail{Sig: c.G + " panic(one register) " + eng.PanicSite(stack), What: desc + " with both operands loads of one register panics in ConstFold: " + fmt.Sprint(p), Case: c}, true
+			}
+			got = ir.Eval(h4, env4)
+			ok = got.Cmp(ir.Adjust(exp4, outW)) == 0
+			if g.truthy {
+				ok = (got.Sign() != 0) == (exp4.Sign() != 0)
+			}
+			if !ok {
+				return &eng.Fail{Sig: c.G + " value(one register as both operands, folded)", What: fmt.Sprintf("%s(r:w%d, r:w%d, w=%d) with r=%x folds to %s = %x, documented function gives %x", c.G, wa, wb, w, content, ir.Show(h4), got, exp4), Case: c}, true
+			}
+		}
+	}
 	// the width-gadget recogniser: whatever WidthGadgetArg accepts has the value of the argument it returns
 	if c.G == "Sub" {
 		for _, k := range []*big.Int{a, b, new(big.Int)} {
@@ -345,7 +397,7 @@ func init() {
 	names := []string{"Negate", "Abs", "BitNot", "Ones", "IntNegative", "Bool", "Not", "BoolCond", "WidthGadget", "WidthGadget2", "BoolCondNarrow", "Sub", "Mod",
 		"BitAnd", "BitOr", "BitXor", "RshA", "SignedMul", "SignedDiv", "SignedMod", "SignExtend", "MaskBits", "Eq", "Leu", "Lts", "Les"}
 	checks["C11"] = eng.Check{
-		Rule: "every exported gadget constructor of pkg/expr/exprtools (plus two compositions: a width gadget of a width gadget, and a narrowed value selected by a wider BoolCond), evaluated (1) on constants through the real ConstFold, (2) on register loads through the independent evaluator and (3) for two-operand gadgets with either operand a constant and the other a register: the real ConstFold simplifies the half-constant gadget and the independent evaluator decides what is left (plus: whatever WidthGadgetArg accepts among register+constant additions has the value of the argument it returns), against big-integer definitions of the documented functions: ALL 65536 operand pairs at width 1 (all 8 sign bits, all 0..8 mask counts, all shift amounts), boundary alphabets at widths 2,3,4,8,16 (SignedMul also 32,64,127) and, with operands of the gadget's own width, at 33 and 255 (thorough 32,33,64,128,255), with operands of width w and — for the unsigned/bitwise gadgets — w-1 and w+1, for the signed arithmetic gadgets also 1 and w-1 on either side. Non-trivial = case inside the gadget's documented domain.",
+		Rule: "every exported gadget constructor of pkg/expr/exprtools (plus two compositions: a width gadget of a width gadget, and a narrowed value selected by a wider BoolCond), evaluated (1) on constants through the real ConstFold, (2) on register loads through the independent evaluator and (3) for two-operand gadgets with either operand a constant and the other a register: the real ConstFold simplifies the half-constant gadget and the independent evaluator decides what is left (plus: whatever WidthGadgetArg accepts among register+constant additions has the value of the argument it returns) and (4) with both operands loads of ONE register at the operand widths of the case (aliased operands, unfolded and folded), against big-integer definitions of the documented functions: ALL 65536 operand pairs at width 1 (all 8 sign bits, all 0..8 mask counts, all shift amounts), boundary alphabets at widths 2,3,4,8,16 (SignedMul also 32,64,127) and, with operands of the gadget's own width, at 33 and 255 (thorough 32,33,64,128,255), with operands of width w and — for the unsigned/bitwise gadgets — w-1 and w+1, for the signed arithmetic gadgets also 1 and w-1 on either side. Non-trivial = case inside the gadget's documented domain.",
 		Assumptions: []string{
 			"signed gadgets (SignedMul/Div/Mod) are judged with operands at most w wide, each taken as a signed integer of its own width (what the gadgets implement and the front end relies on for x0); SignExtend only with sign bit < 8w; MaskBits only with count <= 8w; BoolCond only with a condition not wider than w (documented preconditions)",
 			"IntNegative is judged as zero / non-zero",
